@@ -7,6 +7,8 @@ that evaluates the documented formula with exact rationals rounded once per oper
 from __future__ import annotations
 import math
 
+import numpy as np
+
 from fcv import predio
 from fcv.num import next_up, next_down, rn64
 from fractions import Fraction
@@ -333,7 +335,7 @@ def evaluate(ctx, cases, tagsl):
 
 def shrink(c):
     """reduce an array case to a single scalar pair when that still shows a disagreement"""
-    if "history" in c or c.get("kind") in ("cli-tol", "long"):
+    if "history" in c or c.get("kind") in ("cli-tol", "long") or "mixed_precision" in c:
         return c
     a, b = c["a"], c["b"]
     if a["shape"] != b["shape"] or len(a["v"]) <= 1:
@@ -523,6 +525,43 @@ def replay_long(ctx, c):
     return impl != orc
 
 
+def mixed_precision(ctx, n):
+    """one operand float32 (or float16), the other float64, in either argument order: numpy promotes to float64, so the
+    verdict must be the documented formula evaluated in binary64 on the (exactly representable) values — whichever
+    operand comes first.  Not covered by the Lean model (one float format per evaluation): implementation against the
+    Python rational / binary64 oracle only."""
+    rng = ctx.rng
+    for _ in range(n):
+        small = rng.choice(["f32", "f32", "f16"])
+        npdt = predio.NP_DT[small]
+        nrow = rng.choice([1, 2, 5, 17])
+        k = rng.choice([1, 1, 3])
+        shape = [nrow] if k == 1 else [nrow, k]
+        size = nrow * k
+        exps = [e for e in EXPS if -4 <= e <= 4] if small == "f16" else [e for e in EXPS if -30 <= e <= 30]
+        scale = rng.choice(exps)
+        a = [float(npdt(rand_float(rng, [scale]))) for _ in range(size)]
+        a = [x if np.isfinite(x) else 1.5 for x in a]
+        b = list(a)
+        rel, abs_ = rng.choice(RELS[:13]), rng.choice(ABSS[:6])
+        for _ in range(rng.choice([0, 1, 1, 2])):
+            i = rng.randrange(size)
+            b[i] = near_boundary_partner(rng, a[i], rel, abs_) if rng.random() < 0.7 else rand_float(rng, [scale])
+        A = {"dt": small, "shape": shape, "v": a}
+        B = {"dt": "f64", "shape": shape, "v": b}
+        A64 = dict(A, dt="f64")
+        orc = predio.oracle_fuzzy_f64(["num", rel], ["num", abs_], A64, B)
+        for first, second, order in ((A, B, "small-first"), (B, A, "f64-first")):
+            impl = predio.run_impl("fuzzy", ["num", rel], ["num", abs_], first, second)
+            c = {"kind": "fuzzy", "rel": ["num", rel], "abs": ["num", abs_], "a": first, "b": second, "mixed_precision": order}
+            ctx.case(("mixed", small, order, rel, abs_, tuple(a), tuple(b)), nontrivial=(a != b),
+                     tags=["mixed-precision", "mixed-" + small, "mixed-" + order, "verdict-" + impl], sample=None)
+            if impl != orc:
+                ctx.violation(c, impl, orc, cls=None,
+                              what=f"FuzzyEquality on a {small} array against a float64 array ({order}) differs from the documented "
+                                   "formula evaluated on the promoted (binary64) values")
+
+
 def run(ctx):
     ctx.rule = ("cases = (tolerances, a, b) for FuzzyEquality on float64 arrays; scalar pairs with b placed on the "
                 "threshold +-0..2 ulp over magnitudes subnormal..1e300, arrays of shapes (n,),(n,k),(n,k,k),(n,1) with one "
@@ -557,6 +596,7 @@ def run(ctx):
     for i in range(0, len(cases), CH):
         evaluate(ctx, cases[i:i + CH], tagsl[i:i + CH])
     long_arrays(ctx, LONG_QUICK if ctx.tier == 'quick' else LONG_THOROUGH)
+    mixed_precision(ctx, ctx.scale(400, 20000))
     reused_dynamic_tolerances(ctx, ctx.scale(150, 6000))
     cli_route(ctx, n_vtu_pairs=ctx.scale(40, 169), rounds=ctx.scale(1, 10))
     ctx.spec_viol = [dict(v, case=shrink(v["case"])) for v in ctx.spec_viol[:50]]
